@@ -30,7 +30,7 @@ def _value_test(t: ast.AST, table: str) -> str:
         if s == "value == software_name":
             return "e.2 == name"
         if s in ("value == software.name",):
-            return "e.2 == name"
+            return "e.2 == oname"
         if s in ("key is type(software)", "key == type(software)"):
             return "e.1 == cid"
     raise Unsupported(f"test of the clean-up loop over {table}: {s}")
@@ -92,12 +92,13 @@ def _un_block(stmts: List[ast.stmt], ind: int) -> str:
         return f"{pad}let st : Node := {{ st with applications := st.applications.filter (· != u) }}\n" + _un_block(rest, ind)
     if s == "self.node.services.pop(software.uuid)":
         return f"{pad}let st : Node := {{ st with services := st.services.filter (· != u) }}\n" + _un_block(rest, ind)
-    if s in ("self.node._application_request_manager.remove_request(software.name)", "self.node._application_request_manager.remove_request(software_name)"):
-        return (f"{pad}(if dhas name st.appRoutes then some {{ st with appRoutes := ddel name st.appRoutes }} else none).bind fun st =>\n"
-                + _un_block(rest, ind))
-    if s in ("self.node._service_request_manager.remove_request(software.name)", "self.node._service_request_manager.remove_request(software_name)"):
-        return (f"{pad}(if dhas name st.svcRoutes then some {{ st with svcRoutes := ddel name st.svcRoutes }} else none).bind fun st =>\n"
-                + _un_block(rest, ind))
+    # `software.name` is the popped OBJECT's name (`oname`), `software_name` the key it was popped under (`name`); that the two are
+    # equal is an invariant of `install` (C13_regwf_*: every entry of `software` is stored under its object's name), not an assumption
+    for mgr, fld in (("_application_request_manager", "appRoutes"), ("_service_request_manager", "svcRoutes")):
+        for arg, nm in (("software.name", "oname"), ("software_name", "name")):
+            if s == f"self.node.{mgr}.remove_request({arg})":
+                return (f"{pad}(if dhas {nm} st.{fld} then some {{ st with {fld} := ddel {nm} st.{fld} }} else none).bind fun st =>\n"
+                        + _un_block(rest, ind))
     if isinstance(st, ast.If):
         branches, cur = [], st
         while True:
@@ -138,12 +139,14 @@ def uninstall_method() -> str:
     if k is None or any(ast.unparse(s) not in NOOPS and not _is_log(s) for s in rest[:k]):
         raise Unsupported("uninstall does not start with (no-ops and) `software = self.software.pop(software_name)`")
     return f"""/-- TRANSLATED statement by statement: `SoftwareManager.uninstall(software_name)`.  `u` = the popped object; `isinstance` is read off
-the heap the object lives in; `software.name` is `software_name` (the key it was stored under); `none` = raises -/
+the heap the object lives in; `software.name` is the popped object's own name `oname` (NOT assumed equal to the key `software_name`:
+`C13_regwf_named` proves it on every reachable node); `none` = raises -/
 def uninstallMethod (n : Node) (name : String) : Option Node :=
   if !(dhas name n.software) then some n else
   match dget name n.software with
   | none => some n
   | some u =>
+    let oname : String := (n.nameOf u).getD ""
     let st : Node := {{ n with software := ddel name n.software }}
 {_un_block(rest[k + 1:], 2)}
 """
